@@ -12,7 +12,7 @@ import (
 	"mltwist/verifh/refir"
 )
 
-var bases = []uint64{0, 0x1000, 1<<32 - 24, 1 << 63, 1<<64 - 64}
+var bases = []uint64{0, 0x1000, 1<<32 - 24, 1<<63 - 24, 1 << 63, 0xffffffff80000000, 1<<64 - 64}
 
 func run(c *mon.Case) {
 	r := c.Rng
